@@ -51,6 +51,9 @@ def mutants(tier):  # pylint: disable=unused-argument
                 meta = json.load(handle)
             props = meta.get('caught_by') or [meta['property']]
             label = 'seeded/' + os.path.basename(os.path.dirname(patch))
+            if meta.get('status', '').startswith('neutralised'):
+                print('mutant %-55s skipped (%s)' % (label, meta['status'][:90]))
+                continue
         else:
             props = [os.path.basename(patch).split('_')[0].upper()]
             label = 'mutants/' + os.path.basename(patch)
@@ -58,7 +61,10 @@ def mutants(tier):  # pylint: disable=unused-argument
         os.rmdir(scratch)
         try:
             subprocess.run(['git', '-C', core.REPO, 'worktree', 'add', '--detach', '-q', scratch, 'HEAD'], check=True)
-            subprocess.run(['git', '-C', scratch, 'apply', patch], check=True)
+            if subprocess.run(['git', '-C', scratch, 'apply', patch], check=False).returncode:
+                print('mutant %-55s STALE (does not apply to the current tree)' % label)
+                missed += 1
+                continue
             caught = []
             for prop in props:
                 env = dict(os.environ, VERIF_REPO=scratch)
